@@ -29,8 +29,6 @@ def exact_ok(f):
 
 def shape(f):
     subs = list(fml.subformulas(f))
-    if any(s[0] in ('rise', 'fall') for s in subs):
-        return 'rise_fall'
     if any(s[0] in ('iff', 'xor') and not all(exact_ok(c) for c in fml.children(s)) for s in subs):
         return 'iff_xor_composite'
     if any(s[0] in ('pred', 'a1', 'a2') and not all(exact_ok(c) for c in fml.children(s)) for s in subs):
@@ -46,9 +44,9 @@ def gen_formula(rng, nv, d, wild):
             if rng.random() < 0.1:
                 return ('var', rng.randrange(nv))
             return g.pred(1)
-        ch = ['not', 'and', 'or', 'implies'] * 3 + ['ev', 'alw', 'once', 'hist'] * 2 + ['evt', 'alwt', 'oncet', 'histt'] * 3 + ['prev', 'sprev', 'next', 'snext']
+        ch = ['not', 'and', 'or', 'implies'] * 3 + ['ev', 'alw', 'once', 'hist'] * 2 + ['evt', 'alwt', 'oncet', 'histt'] * 3 + ['prev', 'sprev', 'next', 'snext', 'rise', 'fall']
         if wild:
-            ch += ['iff', 'xor', 'rise', 'fall', 'since', 'untilt']
+            ch += ['iff', 'xor', 'since', 'untilt']
         op = rng.choice(ch)
         if op in fml.UN:
             return (op, go(d - 1))
@@ -142,7 +140,7 @@ class C20(Check):
     PID = 'C20'
     SHRINK_BUDGET = 120
     RULE = ('seeded random discrete-time offline specifications of the explainable fragment (Boolean/temporal structure over predicates: not/and/or/implies, '
-            '(bounded) eventually/always/once/historically, prev/next; 1-2 assertions) plus a wild stream (iff/xor over composite operands, rise/fall, unsupported since/until) '
+            '(bounded) eventually/always/once/historically, prev/next, rise/fall; 1-2 assertions) plus a wild stream (iff/xor over composite operands, unsupported since/until) '
             'x traces of 1-8 samples over -4..6; per violated case the positions explain() did not report are re-assigned (flip, +9, -9, 0, random) and '
             'evaluate() must stay negative at time 0; the reported table must equal the model Explain.explain (sufficiency proved in Props/C20.v); a satisfied '
             'specification must report nothing, also when the same object was violated on earlier data; non-trivial = violated with >= 1 unreported position; distinct by (spec, trace)')
@@ -173,9 +171,13 @@ class C20(Check):
             # antecedent of an implication
             (('implies', ('and', X0, Y0), ('pred', 'leq', ('var', 0), ('a1', 'neg', ('const', 9)))), [[1, 1], [1, 1], [0, 0]]),
             (('not', ('implies', ('or', X0, Y0), R)), [[-1, 1], [1, 1], [-1, 0]]),
-            # known findings: rise/fall and iff/xor over composite operands (the polarity of the operand is not what the explainer assumes)
+            # rise / fall: the previous sample counts with the opposite polarity (repair D42)
             (('next', ('rise', ('and', X0, Y0))), [[1, 1], [1, 1], [0, 0]]),
             (('next', ('not', ('fall', ('and', X0, Y0)))), [[1, 1], [1, 1], [0, 0]]),
+            (('next', ('rise', ('var', 0))), [[1, 0], [0, 0], [0, 0]]),
+            (('alw', ('not', ('fall', X0))), [[3, -1, 2], [0, 0, 0], [0, 0, 0]]),
+            (('not', ('ev', ('rise', ('or', X0, Y0)))), [[-1, 2, 2], [-1, -1, 3], [0, 0, 0]]),
+            # known finding: iff/xor over composite operands (the polarity of the operand is not what the explainer assumes)
             (('iff', ('and', X0, Y0), R), [[1], [1], [-1]]),
             (('not', ('xor', ('and', X0, Y0), R)), [[1], [1], [-1]]),
             # a variable that occurs twice
@@ -341,7 +343,7 @@ class C20(Check):
     def signature(self, c, detail):
         shapes = [shape(f) for f in c['fs']]
         sh = 'explainable'
-        for s in ('rise_fall', 'iff_xor_composite', 'temporal_under_arithmetic'):
+        for s in ('iff_xor_composite', 'temporal_under_arithmetic'):
             if s in shapes:
                 sh = s
         return {'shape': sh, 'kind': detail.get('kind') if isinstance(detail, dict) else None, 'ops': sorted(set().union(*[fml.ops(f) for f in c['fs']]))}
